@@ -34,7 +34,7 @@ JSB = [('magic', 0, 4), ('blocktype', 4, 4), ('blocksize', 12, 4), ('maxlen', 16
        ('feature_compat', 36, 4), ('feature_incompat', 40, 4), ('nr_users', 64, 4), ('csum_type', 0x50, 1), ('checksum', 0xfc, 4)]
 
 POINTER_FIELDS = {'file_acl', 'iblock0', 'iblock1', 'iblock2', 'iblock3', 'iblock5', 'iblock12', 'iblock13', 'iblock14', 'start_lo', 'leaf_lo', 'block_bitmap', 'inode_bitmap', 'inode_table'}
-CLASSES = ['sb', 'gd', 'bbitmap', 'ibitmap', 'inode', 'extent', 'ind', 'dirent', 'dx', 'xattr', 'special', 'jsb', 'bytes', 'blockop', 'dirloop']
+CLASSES = ['sb', 'gd', 'bbitmap', 'ibitmap', 'inode', 'extent', 'ind', 'dirent', 'dx', 'xattr', 'special', 'jsb', 'bytes', 'blockop', 'dirloop', 'eadup']
 KINDS = ['zero', 'ones', 'inc', 'dec', 'bitflip', 'random', 'swap', 'other_block', 'meta_block', 'out_of_range', 'small', 'wrap']
 SUMMARY_CLASSES = ['bbitmap', 'ibitmap', 'gd_counts', 'gd_flags', 'csum_field']
 
@@ -435,6 +435,38 @@ def _apply_one(img, cls, obj, field, kind, val, fixup):
             img.wr(first[a] * bs + 12, struct.pack('<I', b_)); img.fix_dir_block(first[a], a, 'leaf' if kd0 == 'leaf' else 'dxroot')
             if mode == 0: bump(p_, -1); bump(b_, +1)
         return 'dirloop dir %d unlinked from %d%s' % (a, p_, '' if mode == 1 else ', .. -> its subdirectory %d%s' % (b_, '' if mode == 0 else ' (link counts not adjusted)'))
+    if cls == 'eadup':
+        # an xattr block, optionally first (consistently) shared by a second inode, is also claimed as the first data block of another regular file: one block with
+        # several owners of different kinds (what pass 1B-1D must untangle in a single run). field%2: 0 = shared by two inodes first, 1 = single xattr owner
+        if not img.xattr_blocks: return None
+        blk = img.xattr_blocks[obj % len(img.xattr_blocks)]
+        regs = []
+        for ino in img.inuse:
+            if ino < fs.first_ino: continue
+            I = fs.read_inode(ino)
+            if I.fmt == e4ref.S_IFREG and not (I.flags & (e4ref.FL_INLINE | 0x40000 | 0x200000)) and I.file_acl != blk: regs.append((ino, I))
+        note = ''
+        if field % 2 == 0:
+            sh = [(ino, I) for ino, I in regs if I.file_acl == 0]
+            if not sh: return None
+            s_ino, S = sh[val % len(sh)]; o = img.ino_off(s_ino)
+            img.wr(o + 0x68, struct.pack('<I', blk & 0xffffffff)); img.wr(o + 0x76, struct.pack('<H', blk >> 32))
+            ib = int.from_bytes(img.rd(o + 0x1c, 4), 'little') + fs.bs * fs.cratio // 512; img.wr(o + 0x1c, struct.pack('<I', ib)); img.fix_inode(s_ino)
+            rc_ = int.from_bytes(img.rd(blk * bs + 4, 4), 'little'); img.wr(blk * bs + 4, struct.pack('<I', rc_ + 1)); img.fix_xattr_block(blk)
+            regs = [(i_, I_) for i_, I_ in regs if i_ != s_ino]; note = ', shared with ino %d (refcount %d)' % (s_ino, rc_ + 1)
+        # the data-block claim
+        tg = []
+        for ino, I in regs:
+            if I.flags & e4ref.FL_EXTENTS:
+                magic, ents, mx, depth = struct.unpack_from('<HHHH', I.iblock, 0)
+                if magic == 0xF30A and depth == 0 and ents >= 1: tg.append((ino, 'extent'))
+            elif struct.unpack_from('<I', I.iblock, 0)[0]: tg.append((ino, 'ind'))
+        if not tg: return None
+        t_ino, how = tg[(val // 7) % len(tg)]; o = img.ino_off(t_ino) + 0x28
+        if how == 'extent': img.wr(o + 12 + 6, struct.pack('<H', blk >> 32)); img.wr(o + 12 + 8, struct.pack('<I', blk & 0xffffffff))
+        else: img.wr(o, struct.pack('<I', blk & 0xffffffff))
+        img.fix_inode(t_ino)
+        return 'eadup xattr blk %d%s also first data block of ino %d' % (blk, note, t_ino)
     if cls == 'blockop':
         pool = [t[0] for t in img.tree_blocks] + [t[0] for t in img.ind_blocks] + [t[0] for t in img.dir_blocks] + img.xattr_blocks + [fs.gds()[g].bbitmap for g in range(fs.ngroups)] + [fs.gds()[0].itable]
         if len(pool) < 2: return None
@@ -539,6 +571,7 @@ def areas(desc, cfg_features=()):
                 for r in roles: out.add(r + '-inode')
             out.add('bytes-' + m.group(1)); continue
         if d.startswith('block '): out.add('blockop'); continue
+        if d.startswith('eadup '): out.add('eadup-shared' if 'shared' in d else 'eadup'); continue
         if d.startswith('dirloop '): out.add('dirloop' if '..' in d else 'dir-unlinked'); continue
         out.add('other')
     return sorted(out)
